@@ -29,10 +29,29 @@ def final_parts(writes):
     return parts, probs
 
 
+def regroup_bytes(parts):
+    """consecutive single bytes of one to_le_bytes/to_be_bytes encoding -> one 'int' part"""
+    out = []
+    i = 0
+    while i < len(parts):
+        p = parts[i]
+        if p[0] == "u8" and is_sym(p[1]) and p[1].op == "byte" and "src" in p[1].attrs and p[1].args[1] == 0 and p[1].attrs["src"][3]:
+            val, ty, endian, n = p[1].attrs["src"]
+            grp = parts[i:i + n]
+            if len(grp) == n and all(q[0] == "u8" and is_sym(q[1]) and q[1].op == "byte" and q[1].attrs.get("src", (None,))[0] is val
+                                     and q[1].args[1] == k for k, q in enumerate(grp)):
+                out.append(("int", val, ty, endian, 0, n))
+                i += n
+                continue
+        out.append(p)
+        i += 1
+    return out
+
+
 def flatten(parts):
     """merge adjacent literals"""
     out = []
-    for p in parts:
+    for p in regroup_bytes(list(parts)):
         if p[0] == "lit":
             if not p[1]:
                 continue
